@@ -195,7 +195,7 @@ func auditOracle(root *simrt.Inode, ex *Expect, insts map[string]*simrt.OpInst) 
 var profC10 = Profile{
 	MaxProcs: 5, MaxItems: 3, Bufsizes: []int{0, 1, 2}, MaxSlots: 4,
 	Params: true, MultiOut: true, FanIn: true, FanOut: true, NoPort: true, Custom: true,
-	Subdirs: true, Cores: true, TwoSources: true, Zip: true, ParamSrc: true, Taggers: true, Joins: true,
+	Subdirs: true, Cores: true, TwoSources: true, Zip: true, ParamSrc: true, Taggers: true, Joins: true, EmptyOuts: true,
 }
 
 func init() {
@@ -228,7 +228,7 @@ func init() {
 var profC11 = Profile{
 	MaxProcs: 4, MaxItems: 2, Bufsizes: []int{0, 1, 2}, MaxSlots: 3,
 	Params: true, MultiOut: true, FanIn: true, FanOut: true,
-	Subdirs: true, Zip: true, ParamSrc: true, Joins: true,
+	Subdirs: true, Zip: true, ParamSrc: true, Joins: true, EmptyOuts: true,
 }
 
 func parseAny(b []byte) (map[string]any, error) {
